@@ -199,6 +199,46 @@ PROPS["C02"] = {
     "assumptions": ["fuel: 100000 yields / 20000 effects per run; runs that exhaust it count as 'stopped'"],
 }
 
+PROPS["C06"] = {
+    "pkg": "p06",
+    "level": "exploration",
+    "level_text": "Round-trip search: for ~4*10^4 (quick) / ~8*10^5 (thorough) accepted source texts the formatter's output is re-lexed "
+                  "(the sequence of non-whitespace tokens incl. comments must be unchanged: numbers by value, strings by decoded value), "
+                  "re-parsed (must be accepted, same syntax tree modulo blank-line statements) and run next to the source on identical "
+                  "inputs and random seed (identical effects and outcome).",
+    "level_note": "Sources: model programs rendered with adversarial layout (comments after every line kind and inside multi-line "
+                  "literals, odd indentation, tight/spaced operators, redundant parentheses, number/string spellings), the repository's "
+                  "programs, and whitespace-only re-layouts of both. Program.String() is used to compare trees.",
+    "technique": "property-based round-trip testing of the formatter (token round-trip, re-parse, same tree, differential run) (rapid)",
+    "tests": [
+        {"name": "TestProp", "quick": {"shards": 8, "checks": 5000}, "thorough": {"shards": 16, "checks": 50000}},
+    ],
+    "rule": "cases: accepted source texts (model / corpus / re-layout). Non-trivial = the text contains a comment or a multi-line literal "
+            "and is changed by formatting; distinct by source text.",
+    "assumptions": ["source is valid UTF-8 (spec: Evy source code is UTF-8 encoded)"],
+}
+
+PROPS["C07"] = {
+    "pkg": "p07",
+    "needs_evy": True,
+    "level": "exploration",
+    "level_text": "For ~4*10^4 (quick) / ~8*10^5 (thorough) accepted programs: F(F(s)) == F(s); F(s') == F(s) for a generated variant s' that "
+                  "differs only in optional horizontal whitespace and blank-line run lengths; F(s) obeys the shape rules (4 spaces per "
+                  "block level computed from the token stream, no trailing whitespace, no two consecutive blank lines, exactly one final "
+                  "newline); and on a sample the real `evy fmt -c` exits 0 on F(s) and non-zero on s != F(s), from stdin and from a file it "
+                  "must not modify.",
+    "level_note": "Indentation inside multi-line literals is only required to be whole groups of four spaces (the statement fixes block "
+                  "levels only). Sources ending in blank lines are trimmed while finding F17 is open (counted under excluded_by_construction).",
+    "technique": "property-based metamorphic testing of the formatter (idempotence, whitespace-variant invariance, shape predicate, CLI sample) (rapid)",
+    "tests": [
+        {"name": "TestProp", "quick": {"shards": 8, "checks": 5000}, "thorough": {"shards": 16, "checks": 50000}},
+    ],
+    "rule": "cases: (source, whitespace-only variant) pairs from model programs with adversarial layout and from repository programs. "
+            "Non-trivial = formatting changes the text, or it has a multi-line literal, or the variant differs from the source; distinct "
+            "by (source, variant).",
+    "assumptions": [],
+}
+
 NOT_APPLICABLE = {}
 
 ENGINES = [
